@@ -379,6 +379,7 @@ impl Prop for C15 {
                 out.push(Violation::new(prop, "parent_dependent_open", &format!("via={via}"), "a segment that opens through the init reader does not open through a reader that already holds fragments".to_string()));
             }
             st.inc("image_does_not_open");
+            st.inc(&format!("image_does_not_open.{}", match &case.src { IoSrc::Mux(_) => "mux", IoSrc::Seed(s) => s.class() }));
             return out;
         };
         if let Some((p2, _)) = open_player(&img, split, &case.io) {
@@ -394,6 +395,55 @@ impl Prop for C15 {
                 });
             if a.ftyp != b.ftyp || a.moov != b.moov || a.moofs != b.moofs || a.emsgs != b.emsgs || !tracks_equal {
                 out.push(Violation::new(prop, "parse_not_deterministic", "", "opening the same bytes twice gave different structures".to_string()));
+            }
+        }
+        // ---- refused openings of *other* bytes in between must not change what these bytes give
+        // (one case in 16): 8-47 damaged variants of the image - a deep box retyped, or the image
+        // cut inside a deep box - are opened (most are refused), then the intact image is opened
+        // once more and must give the same structures as before. State that outlives a reader
+        // (a process- or thread-wide counter, cache or pool fed by failed parses) shows here.
+        if case.calls.len() % 16 == 3 {
+            let nodes = crate::boxtree::walk(&img);
+            let mut deep: Vec<&crate::boxtree::Node> = nodes.iter().filter(|n| n.depth >= 2 && n.start + 8 <= img.len()).collect();
+            deep.sort_by_key(|n| std::cmp::Reverse(n.depth));
+            if !deep.is_empty() {
+                let n_var = 8 + case.calls.len() % 40;
+                let mut refused = 0u32;
+                for j in 0..n_var {
+                    let node = deep[(j * 7 + case.calls.len()) % deep.len()];
+                    let mut v = img.clone();
+                    if j % 3 == 2 {
+                        v.truncate(node.start + 8 + (j % 5));
+                    } else {
+                        v[node.start + 4..node.start + 8].copy_from_slice(b"zz9z");
+                    }
+                    let vsim = Sim::shared(SimDisk::from_bytes(v.clone()));
+                    if !matches!(Player::open(&vsim, 0, v.len() as u64, 0), Opened::Ok(_)) {
+                        refused += 1;
+                    }
+                }
+                st.add("refused_openings_in_between", refused as u64);
+                if refused > 0 {
+                    st.inc("probe.reopened_after_refused_openings");
+                }
+                match open_player(&img, split, &crate::scenario::IoKnobs::plain()) {
+                    None => out.push(Violation::new(prop, "open_depends_on_earlier_openings", "", format!("the image opened, {refused} damaged variants of it were refused, and now the same bytes are refused as well"))),
+                    Some((p3, _)) => {
+                        let (a, b) = (&p.reader, &p3.reader);
+                        let mut ids_a: Vec<u32> = a.tracks().keys().copied().collect();
+                        let mut ids_b: Vec<u32> = b.tracks().keys().copied().collect();
+                        ids_a.sort_unstable();
+                        ids_b.sort_unstable();
+                        let tracks_equal = ids_a == ids_b
+                            && ids_a.iter().all(|id| {
+                                let (x, y) = (&a.tracks()[id], &b.tracks()[id]);
+                                x.trak == y.trak && x.trafs == y.trafs && x.moof_offsets == y.moof_offsets
+                            });
+                        if a.ftyp != b.ftyp || a.moov != b.moov || a.moofs != b.moofs || !tracks_equal {
+                            out.push(Violation::new(prop, "open_depends_on_earlier_openings", "", format!("the same bytes gave different structures after {refused} refused openings of damaged variants")));
+                        }
+                    }
+                }
             }
         }
         // ---- the schedule on one long-lived reader vs fresh-reader answers
@@ -503,6 +553,6 @@ impl Prop for C15 {
         ]
     }
     fn mandatory_probes(_t: Tier) -> Vec<&'static str> {
-        vec!["transient_faults_fired", "double_mux_runs", "probe.double_mux_across_a_second_boundary", "image.frag", "image.canned_frag", "calls_compared", "probe.segment_opened_through_a_segment_reader", "probe.segment_opened_through_a_whole_stream_reader"]
+        vec!["transient_faults_fired", "double_mux_runs", "probe.double_mux_across_a_second_boundary", "image.frag", "image.canned_frag", "calls_compared", "probe.segment_opened_through_a_segment_reader", "probe.segment_opened_through_a_whole_stream_reader", "probe.reopened_after_refused_openings"]
     }
 }
